@@ -1,0 +1,7 @@
+//go:build !verif
+
+package eventbus
+
+import "reflect"
+
+func verifHook(string, reflect.Type, any, any) {}
